@@ -234,6 +234,8 @@ var shapes = []string{
 	`"` + unknownName + `"`,     // an unregistered 12-character name
 	`""`,
 	`"1` + strings.Repeat("0", 80) + `"`, // a huge number in a string
+	`"0"`,                                // the numbers at the edge of every range test, as strings
+	`"-1"`,
 	`1`,
 	`1000000000000000000000000000000`, // a huge number
 	`null`,
@@ -466,7 +468,7 @@ func enumerate(tier string, w *world, f func(Case) bool) {
 
 func init() {
 	// the command table is what the Rule text promises
-	if n := len(shapes) + 1; n != 13 {
+	if n := len(shapes) + 1; n != 15 {
 		panic(fmt.Sprint("shapes: ", n))
 	}
 }
